@@ -193,7 +193,8 @@ fn live_run() -> Value {
     }
     results.sort();
     std::mem::forget(sched);
-    json!({"results": results, "ms": t0.elapsed().as_millis() as u64})
+    // (no wall time in the record: records must be identical when a case is re-executed)
+    json!({"results": results})
 }
 
 pub fn exec(c: &Case, em: &mut Emitter) {
@@ -222,7 +223,7 @@ pub fn judge(c: &Case, res: &ChildResult, rep: &mut Report) {
         let Some(l) = res.last("live") else { return };
         let out = &l["out"];
         if out["results"] != json!(["Ok(Some(1))", "Ok(Some(2))"]) {
-            rep.violation("c22.arrival/busy-coroutine-is-preempted-so-sibling-runs/live", format!("a coroutine that never yields and a ready sibling under the real monitor: results {} after {}ms (the sibling must run while the busy one is still spinning)", out["results"], out["ms"]), replay());
+            rep.violation("c22.arrival/busy-coroutine-is-preempted-so-sibling-runs/live", format!("a coroutine that never yields and a ready sibling under the real monitor: results {} (the sibling must run while the busy one is still spinning)", out["results"]), replay());
         } else {
             rep.witness("live_monitor_preemption_seen");
         }
